@@ -199,7 +199,7 @@ func (f *OrefaFile) Read(b []byte) (n int, err error) {
 
 	f.at += int64(n)
 
-	if n == 0 {
+	if n == 0 && len(b) != 0 {
 		return 0, io.EOF
 	}
 
@@ -248,6 +248,10 @@ func (f *OrefaFile) ReadAt(b []byte, off int64) (n int, err error) {
 
 	nd.mu.RLock()
 	defer nd.mu.RUnlock()
+
+	if len(b) == 0 {
+		return 0, nil
+	}
 
 	if int(off) > len(nd.data) {
 		return 0, io.EOF
@@ -627,6 +631,10 @@ func (f *OrefaFile) Write(b []byte) (n int, err error) {
 		return 0, &fs.PathError{Op: op, Path: f.name, Err: err}
 	}
 
+	if len(b) == 0 {
+		return 0, nil
+	}
+
 	nd.mu.Lock()
 
 	if f.openMode&avfs.OpenAppend != 0 {
@@ -696,6 +704,10 @@ func (f *OrefaFile) WriteAt(b []byte, off int64) (n int, err error) {
 		}
 
 		return 0, &fs.PathError{Op: op, Path: f.name, Err: err}
+	}
+
+	if len(b) == 0 {
+		return 0, nil
 	}
 
 	nd.mu.Lock()
